@@ -14,7 +14,9 @@ import numpy as np
 
 from vf.runner import V
 
-IDS = [50, 10, 40, 20, 30, 60, 5, 45, 15, 70, 25, 35]  # fixed non-monotone identifier order
+# fixed non-monotone identifier order over the whole int64 range (beyond int32; odd numbers above 2**53 are not
+# representable in float64)
+IDS = [50, 2**53 + 1, 10, 2**31 + 7, 2**62 + 3, 20, 60, 5, 15, 70, 25, 35]
 ABSENT_ID = 33
 TINY = 0.001  # cache_size_mb giving room for exactly two 3-point trajectories
 LARGE = 64
@@ -480,12 +482,16 @@ class StoreDriver:
                     if got != k:
                         vio.append(V('observe:get-wrong', f'history {history} ({where}): get_flight({fid(k)}) gave #{got}, model #{k}'))
                         break
-                try:
-                    t = store.get_flight(ABSENT_ID)
-                    if t is not None:
-                        vio.append(V('observe:get-absent', f'history {history} ({where}): get_flight(absent) returned #{marker(t)}'))
-                except Exception as ex:  # noqa: BLE001
-                    vio.append(V('observe:get-raised', f'history {history} ({where}): get_flight(absent) raised {type(ex).__name__}: {ex}'))
+                present = {fid(k) for k in items}
+                for a in [ABSENT_ID] + sorted({f - 1 for f in present} - present):  # never added, incl. neighbours of added ones
+                    try:
+                        t = store.get_flight(a)
+                        if t is not None:
+                            vio.append(V('observe:get-absent', f'history {history} ({where}): get_flight({a}) (never added) returned #{marker(t)}'))
+                            break
+                    except Exception as ex:  # noqa: BLE001
+                        vio.append(V('observe:get-raised', f'history {history} ({where}): get_flight({a}) (never added) raised {type(ex).__name__}: {ex}'))
+                        break
         finally:
             if opened_here:
                 try:
